@@ -204,6 +204,32 @@ def extract_tables(repo):
                 if ty != "'" + lt:
                     okp = False
                     dp.append('%s: fn %s(%s) -> %s  (impl lifetime %s)' % (f_, name, params, ret, lt))
+    # BumpBox: whatever a box turns into (into_ref / into_mut / leak / into_boxed_* / split_* ...) carries the lifetime of
+    # the box: no function-level lifetime parameter, no other named lifetime, no 'static in a result type
+    tbx = rd('src/bump_box.rs')
+    okb, db = True, []
+    nbox = 0
+    for m_ in FN_RE.finditer(tbx):
+        name, gen, params, ret = m_.group(1), (m_.group(2) or ''), ' '.join(m_.group(3).split()), ' '.join((m_.group(4) or '').split())
+        first = params.split(',')[0].strip()
+        takes_box = first in ('self', 'mut self') or re.match(r'(mut\s+)?\w+\s*:\s*Self$', first)
+        if not takes_box or not re.search(r"&|BumpBox|FixedBumpVec|FixedBumpString", ret):
+            continue
+        hdr = impl_at(tbx, m_.start())
+        if 'BumpBox<' not in hdr[1]:
+            continue
+        lm = re.search(r"BumpBox<\s*'(\w+)", hdr[1])
+        if not lm:
+            continue
+        nbox += 1
+        own = set(re.findall(r"'(\w+)", gen))
+        lts = lifetimes(ret)
+        if (lts & own) or (lts - {lm.group(1), '_'}) or "'static" in ret:
+            okb = False
+            db.append("fn %s%s(%s) -> %s in impl %s" % (name, gen, params, ret, hdr[1][:60]))
+    if nbox < 3:
+        raise Unsupported('the conversions of BumpBox (into_ref / into_mut / leak ...) were not found')
+    fact('box_conversions_tied_to_box', okb, '; '.join(db[:3]) or '%d consuming conversions of BumpBox return the lifetime of the box' % nbox)
     fact('conversions_keep_the_lifetime_of_their_parts', okp, '; '.join(dp[:3]) or 'from_parts / into_parts / from_init / from_uninit / into_* carry the impl lifetime')
 
     # (4) Send / Sync
@@ -269,7 +295,7 @@ def tables_v(facts, det, conv, uses):
     L.append('   | PGuardScope => tied (guard_scope_mut_and_borrowed && scope_methods_tied_to_scope)')
     L.append('   | PPoolGuard => tied (pool_guard_scope_is_pool_borrow && scope_methods_tied_to_scope)')
     L.append('   | PClaim => tied (claim_guard_scope_is_original_scope && scope_methods_tied_to_scope)')
-    L.append('   | PCollection => tied (collection_finalisers_tied_to_scope && conversions_keep_the_lifetime_of_their_parts)')
+    L.append('   | PCollection => tied (collection_finalisers_tied_to_scope && conversions_keep_the_lifetime_of_their_parts && box_conversions_tied_to_box)')
     L.append('   end)')
     L.append('  (fun w => match w with')
     L.append('   | WReset => mutr bump_reset_mut')
@@ -341,6 +367,9 @@ PRODUCERS = [
     ('vec_into_slice', '{ let mut v = BumpVec::new_in(&*@R@); v.push(1u8); v.into_slice() }'),
     ('vec_into_boxed_slice', '{ let mut v = BumpVec::new_in(&*@R@); v.push(1u8); v.into_boxed_slice() }'),
     ('string_into_boxed_str', '{ let mut s = BumpString::new_in(&*@R@); s.push(\'x\'); s.into_boxed_str() }'),
+    ('box_into_ref', '@H@.alloc(5u64).into_ref()'),
+    ('box_into_mut', '@H@.alloc(5u64).into_mut()'),
+    ('box_into_leaked', 'BumpBox::leak(@H@.alloc(5u64))'),
     ('stats', '@H@.stats()'),
     ('allocator', '@H@.allocator()'),
 ]
